@@ -2,6 +2,7 @@ package main
 
 import (
 	"bufio"
+	"bytes"
 	"fmt"
 
 	"github.com/btcsuite/btcd/chaincfg/chainhash"
@@ -167,7 +168,26 @@ func genShCases(r *Rng, n int, w *bufio.Writer) {
 func runSh(t *Toks) string {
 	c := readSh(t)
 	warmSh(c)
-	return "d=" + c.digest()
+	d := c.digest()
+	// the same digest through the secondary entry point: on the domain where parsing a serialization gives the
+	// transaction back field by field (wfTx, the domain of C01), the transaction read from its own bytes must hash alike
+	if len(d) == 64 && wfTx(c.tx) {
+		var back *transaction.Transaction
+		if guarded(func() {
+			ser, err := c.tx.Serialize()
+			if err == nil {
+				back, _ = transaction.NewTxFromBuffer(bytes.NewBuffer(ser))
+			}
+		}) != nil || back == nil {
+			return "d=not-readable-from-its-own-bytes"
+		}
+		c2 := *c
+		c2.tx = back
+		if d2 := c2.digest(); d2 != d {
+			return "d=differs-when-read-from-its-own-bytes:" + d2
+		}
+	}
+	return "d=" + d
 }
 
 // warmSh makes the transaction object of the case a used one: it is hashed in a different state (every covered field
